@@ -341,7 +341,6 @@ Definition inv_key (k : key) : bool :=
   forallb (fun u => forallb (uid_sig_ok k u) (u_sigs u)) (p_uids k)
   && forallb (key_item_ok k) (p_sigs k)
   && forallb (fun sk => forallb (sub_item_ok k sk) (sk_sigs sk)) (p_subs k).
-Definition sorted_key (k : key) : bool :=
-  sortedb item_lt (p_sigs k) && forallb (fun u => sortedb sig_lt (u_sigs u)) (p_uids k)
-  && forallb (fun sk => sortedb item_lt (sk_sigs sk)) (p_subs k) && uids_sortedb k.
-Definition inv_world (w : world) : bool := forallb (fun ob => inv_key (o_key ob) && sorted_key (o_key ob)) w.
+Definition sorted_key (k : key) : bool := all_sortedb k.
+Definition good_key (k : key) : bool := inv_key k && all_sortedb k && wfkb k.
+Definition inv_world (w : world) : bool := forallb (fun ob => good_key (o_key ob)) w.
